@@ -35,6 +35,10 @@ class RH(NumpyHooks):
         if isinstance(obj, SArr):
             if name == 'dtype':
                 return Opaque('dtype')
+            if name == 'size':
+                return len(obj.items)
+            if name == 'ndim':
+                return 1
             if name == 'flags':
                 return Rec('flags', c_contiguous=True, f_contiguous=True)
             if name == 'fill':
@@ -367,6 +371,7 @@ def check(ctx):
             rep.undecided('R2', 'resize_array[%s]:crop-after-extend' % mode,
                           str(e), NUM, fn.lineno)
     _resize_discr(rep, model)
+    _offsets(rep, model)
     _wiring(rep, model)
     _nd(rep, model, ctx.tier == 'thorough')
     return rep
@@ -461,6 +466,75 @@ def _resize_discr(rep, model):
             except PyRaise as e:
                 rep.violation('R4', '_resize_discr', '%s: raises %s'
                               % (tag, e.name), DOPS, fn.lineno)
+
+
+def _offsets(rep, model):
+    """R4b: `_offset_from_spaces` on 2-d domain / range pairs whose axes
+    grow, shrink or stay independently (so that the total size can move
+    against an axis): the index offset of the smaller extent inside the
+    larger one, per axis; 0 in unchanged axes."""
+    import numpy as _np
+    from ..namodel import NA, NAHooks, NAInterp, objarr
+    from .. import posalg as PA
+    from ..posalg import Signs
+    fn = model.ctx.func(DOPS, '_offset_from_spaces')
+    if fn is None:
+        raise AnalysisError('anchor vanished: _offset_from_spaces')
+    signs = Signs({'c0', 'c1'})
+    c = [Rat.var('c0'), Rat.var('c1')]
+    g = [Rat.var('g0'), Rat.var('g1')]
+
+    class H(NAHooks):
+        def atom1(self, name):
+            if name in ('abs', 'absolute'):
+                return lambda x: PA.abs_nf(to_rat(x), signs)
+            return NAHooks.atom1(self, name)
+
+        def on_getattr(self, interp, obj, name):
+            if isinstance(obj, Rec) and name in obj.attrs:
+                return obj.attrs[name]
+            return NAHooks.on_getattr(self, interp, obj, name)
+
+    def space(shape, first):
+        return Rec('DiscretizedSpace', ndim=2, shape=tuple(shape),
+                   size=shape[0] * shape[1],
+                   cell_sides=NA(objarr(list(c)), 'float64'),
+                   grid=Rec('grid', min=Builtin('min', lambda: NA(
+                       objarr(list(first)), 'float64'))))
+    # per axis: (domain length, range length, cells added / removed left)
+    AX = [(4, 4, 0), (4, 7, 0), (4, 7, 2), (4, 7, 3), (5, 2, 0), (5, 2, 1),
+          (5, 2, 3), (3, 8, 1), (8, 3, 4)]
+    n = 0
+    for a0, a1 in itertools.product(AX, AX):
+        n += 1
+        tag = '_offset_from_spaces[%s x %s]' % (
+            '%d->%d@%d' % a0, '%d->%d@%d' % a1)
+        dom_first = list(g)
+        ran_first = []
+        want = []
+        for ax, (nd, nr, k) in enumerate((a0, a1)):
+            if nr >= nd:
+                ran_first.append(g[ax] - c[ax] * k)
+            else:
+                ran_first.append(g[ax] + c[ax] * k)
+            want.append(0 if nd == nr else k)
+        try:
+            I = NAInterp(model, {}, H())
+            out = I.call_func(Func(fn, I.env_of(DOPS), None), [
+                space((a0[0], a1[0]), dom_first),
+                space((a0[1], a1[1]), ran_first)], {})
+            got = [to_rat(v) for v in out]
+            if len(got) != 2 or any(not (gv - Rat.const(w)).is_zero()
+                                    for gv, w in zip(got, want)):
+                rep.violation('R4b', tag, 'offset %r, expected %r'
+                              % (tuple(got), tuple(want)), DOPS, fn.lineno)
+            else:
+                rep.holds('R4b', tag, 'offset %r' % (tuple(want),))
+        except Undecided as e:
+            rep.undecided('R4b', tag, str(e), DOPS, fn.lineno)
+        except PyRaise as e:
+            rep.violation('R4b', tag, 'raises %s' % e.name, DOPS, fn.lineno)
+    rep.floor('R4b', 'offset configurations', n, 80)
 
 
 def _wiring(rep, model):
@@ -590,16 +664,20 @@ def _nd(rep, model, thorough):
             out[idx] = tot
         return out
 
-    configs = [((2, 3), (4, 4)), ((2, 2, 2), (3, 3, 3))]
+    # growing in every axis, and mixed (growing in one axis, shrinking in
+    # another) with the total size growing, shrinking and unchanged
+    configs = [((2, 3), (4, 4)), ((2, 2, 2), (3, 3, 3)),
+               ((3, 4), (5, 2)), ((2, 4), (4, 3)), ((2, 3), (3, 2))]
     if thorough:
         configs.append(((2, 3, 2), (4, 4, 3)))
+        configs.append(((3, 2, 3), (2, 4, 2)))
     n = 0
     for shape_in, shape_out in configs:
         for mode in ('constant', 'periodic', 'symmetric', 'order0',
                      'order1'):
             for direction in ('forward', 'adjoint'):
-                offs = [range(so - si + 1) for si, so in zip(shape_in,
-                                                             shape_out)]
+                offs = [range(abs(so - si) + 1) for si, so in zip(
+                    shape_in, shape_out)]
                 bad = []
                 cnt = 0
                 for offset in itertools.product(*offs):
